@@ -1,0 +1,16 @@
+//go:build verif
+
+// Contracts for the deductive verifier in /verif (govc). This file contains no code: with the
+// build tag off it is not part of the package, with it on it adds nothing to the build.
+package antedl
+
+//@ import sdk "github.com/cosmos/cosmos-sdk/types"
+//@ import evmtypes "github.com/EscanBE/evermint/v12/x/evm/types"
+//@ import sdkvesting "github.com/cosmos/cosmos-sdk/x/auth/vesting/types"
+
+// The default list of message types that may neither be nested in MsgExec nor be granted: the Ethereum message and the three
+// vesting-account-creation messages (msgTypeUrl: prelude/43_ante_authz.spec; app.go feeds this list to the 992c decorator).
+//@ func (options HandlerOptions) WithDefaultDisabledNestedMsgs() HandlerOptions
+//@   modifies nothing
+//@   ensures[C07.default_disabled_list,C16.default_disabled_list] len(result.DisabledNestedMsgs) == 4 && result.DisabledNestedMsgs[0] == msgTypeUrl(type(*evmtypes.MsgEthereumTx)) && result.DisabledNestedMsgs[1] == msgTypeUrl(type(*sdkvesting.MsgCreateVestingAccount)) && result.DisabledNestedMsgs[2] == msgTypeUrl(type(*sdkvesting.MsgCreatePeriodicVestingAccount)) && result.DisabledNestedMsgs[3] == msgTypeUrl(type(*sdkvesting.MsgCreatePermanentLockedAccount))
+//@   panics never
